@@ -365,3 +365,138 @@ func genOverlap2(tier string, seed int64, only string) []*Case {
 	}
 	return cases
 }
+
+// ---------- overlap3: the library's OWN sources, context cancelled while a callback runs ----------
+//
+// Sources that emit from a goroutine of their own (Future, Timer, Interval, RangeWithInterval, FromChannel, Start) and the
+// context operators (ThrowOnContextCancel, ContextWithTimeout) are subscribed with a cancellable context into the raw
+// counting observer; the context is cancelled while the observer is inside its first value callback. Whatever the
+// source does about the cancellation (most do nothing: a done context does not end a stream), its reaction must not run
+// concurrently with the callback in progress: a source with a second goroutine feeding a lock-less subscriber would
+// start the terminal callback while Next is still running. Model side: serialized (RoProps/C02b.ctor_modes: every
+// creation operator with more than one emitting goroutine is built with a locking constructor).
+
+var overlap3Ops = map[string]func(ch chan int) ro.Observable[int]{
+	"Future": func(chan int) ro.Observable[int] {
+		return ro.Future(func() (int, error) { return 1, nil })
+	},
+	"FutureMap": func(chan int) ro.Observable[int] {
+		return ro.Map(func(v int) int { return v + 1 })(ro.Future(func() (int, error) { return 1, nil }))
+	},
+	"FutureErr": func(chan int) ro.Observable[int] {
+		return ro.Future(func() (int, error) { time.Sleep(100 * time.Microsecond); return 0, fmt.Errorf("x") })
+	},
+	"Start": func(chan int) ro.Observable[int] { return ro.Start(func() int { return 1 }) },
+	"Timer": func(chan int) ro.Observable[int] {
+		return ro.Map(func(time.Duration) int { return 1 })(ro.Timer(50 * time.Microsecond))
+	},
+	"Interval": func(chan int) ro.Observable[int] {
+		return ro.Map(func(v int64) int { return int(v) })(ro.Interval(50 * time.Microsecond))
+	},
+	"RangeWithInterval": func(chan int) ro.Observable[int] {
+		return ro.Map(func(v int64) int { return int(v) })(ro.RangeWithInterval(0, 5, 50*time.Microsecond))
+	},
+	"FromChannel": func(ch chan int) ro.Observable[int] { return ro.FromChannel[int](ch) },
+	"ThrowOnContextCancel": func(chan int) ro.Observable[int] {
+		return ro.ThrowOnContextCancel[int]()(pumpSource(200, 0))
+	},
+	"ContextWithTimeout": func(chan int) ro.Observable[int] {
+		return ro.ThrowOnContextCancel[int]()(ro.ContextWithTimeout[int](150 * time.Microsecond)(pumpSource(200, 0)))
+	},
+}
+
+func init() { registerKind("overlap3", genOverlap3, "overlap3", runOverlap3Case) }
+
+// slowObserver: like overlapObserver, but the first value callback waits until the harness has cancelled the context
+type slowObserver struct {
+	overlapObserver
+	entered chan struct{}
+	gate    chan struct{}
+	first   int32
+}
+
+func (o *slowObserver) Next(v int) { o.NextWithContext(context.Background(), v) }
+func (o *slowObserver) NextWithContext(ctx context.Context, v int) {
+	o.enter(false)
+	if atomic.CompareAndSwapInt32(&o.first, 0, 1) {
+		close(o.entered)
+		select {
+		case <-o.gate:
+		case <-time.After(100 * time.Millisecond):
+		}
+		time.Sleep(300 * time.Microsecond) // the reaction to the cancellation, if any, starts while this callback runs
+	}
+	o.leaveValue()
+}
+
+func runOverlap3Case(c *Case) string {
+	mk, ok := overlap3Ops[c.get("op", "?")]
+	if !ok {
+		return "res " + c.id + " unsupported"
+	}
+	rounds := 12
+	fmt.Sscanf(c.get("rounds", "12"), "%d", &rounds)
+	setRecorder(nil)
+	worst, after := int32(0), int32(0)
+	for r := 0; r < rounds && worst <= 1 && after == 0; r++ {
+		o := &slowObserver{entered: make(chan struct{}), gate: make(chan struct{})}
+		ch := make(chan int, 8)
+		for i := 0; i < 4; i++ {
+			ch <- i
+		}
+		ctx, cancel := context.WithCancel(context.Background())
+		done := make(chan ro.Subscription, 1)
+		obs := mk(ch)
+		go func() { done <- obs.SubscribeWithContext(ctx, o) }()
+		select {
+		case <-o.entered:
+			cancel()
+			close(o.gate)
+		case <-time.After(20 * time.Millisecond): // no value (FutureErr): cancel anyway
+			cancel()
+		}
+		deadline := time.Now().Add(5 * time.Millisecond)
+		for atomic.LoadInt32(&o.done) == 0 && time.Now().Before(deadline) {
+			time.Sleep(100 * time.Microsecond)
+		}
+		close(ch)
+		select {
+		case sub := <-done:
+			sub.Unsubscribe()
+		case <-time.After(time.Second):
+		}
+		time.Sleep(200 * time.Microsecond)
+		if m := atomic.LoadInt32(&o.maxInside); m > worst {
+			worst = m
+		}
+		after += atomic.LoadInt32(&o.after)
+		cancel()
+	}
+	verdict := "serialized"
+	if worst > 1 {
+		verdict = "overlap"
+	}
+	return fmt.Sprintf("res %s observed=%s maxinside=%d after=%d", c.id, verdict, worst, after)
+}
+
+func genOverlap3(tier string, seed int64, only string) []*Case {
+	rounds := "6"
+	if tier == "thorough" {
+		rounds = "60"
+	}
+	var names []string
+	for k := range overlap3Ops {
+		names = append(names, k)
+	}
+	sortStrings(names)
+	var cases []*Case
+	id := 0
+	for _, n := range names {
+		if only != "" && n != only {
+			continue
+		}
+		id++
+		cases = append(cases, newCase(id, "kind", "overlap3", "op", n, "rounds", rounds))
+	}
+	return cases
+}
